@@ -410,6 +410,12 @@ pub fn plan(prop: &str, tier: &str) -> Option<Plan> {
                 for f in ["6", "10", "16", "28"] {
                     s.push(sweep(prop, "u32", H_GOOD, 150_000, &["c03", "c10", "cheap"], &[("stride", "0"), ("shrink_frac", f), ("audit_every", "50000")], "chk", 40.0));
                 }
+                // zero slack: at every resize, shrink_to_fit to a main table whose capacity is exactly what is needed
+                for d in ["1", "2", "3", "6"] {
+                    // (exact fit, and 1 / 2 / 5 more than a table capacity: an estimate that much too small still picks it)
+                    s.push(sweep(prop, "u32", H_GOOD, 150_000, &["c03", "c10", "cheap"], &[("stride", "0"), ("tight_shrink", d), ("audit_every", "50000")], "chk", 40.0));
+                }
+                s.push(sweep(prop, "big", H_GOOD, 1_000, &["c03", "c10", "cheap"], &[("stride", "0"), ("tight_shrink", "1"), ("audit_every", "0")], "chk", 40.0));
                 bounds = json!({"E7": "head-room probe shortly after every resize start on the growth path to 2*10^5 elements (with tombstones to 2*10^4); and at every resize start up to 1.5*10^5 elements: remove len/f of the oldest keys (f in {6,10,16,28}), shrink_to_fit, head-room probe", "E1": "d<=2 at N=40 (HGood, HTag) / N=31 (HLow, HConst); d<=1 at N=130 (every key) and at every n<=600 with the boundary menu", "E2": "fixpoint u=4 with the head-room probe at every state"});
             } else {
                 for &hk in &HS4 {
@@ -429,6 +435,10 @@ pub fn plan(prop: &str, tier: &str) -> Option<Plan> {
                 for st in ["0", "2", "3", "8"] {
                     s.push(sweep(prop, "u32", H_GOOD, 3_000_000, &["c03", "c10", "cheap"], &[("stride", st), ("fill", "1"), ("mix", "1"), ("audit_every", "200000")], "chk", 600.0));
                 }
+                for d in ["1", "2", "3", "4", "6", "9", "17", "33"] {
+                    s.push(sweep(prop, "u32", H_GOOD, 2_000_000, &["c03", "c10", "cheap"], &[("stride", "0"), ("tight_shrink", d), ("audit_every", "500000")], "chk", 600.0));
+                }
+                s.push(sweep(prop, "tk", H_GOOD, 100_000, &["c03", "c10", "cheap"], &[("stride", "0"), ("tight_shrink", "1"), ("audit_every", "0")], "chk", 600.0));
                 for f in ["5", "6", "8", "10", "12", "16", "20", "28", "40"] {
                     s.push(sweep(prop, "u32", H_GOOD, 1_000_000, &["c03", "c10", "cheap"], &[("stride", "0"), ("shrink_frac", f), ("audit_every", "200000")], "chk", 600.0));
                 }
